@@ -590,6 +590,7 @@ var cmapTmplNew = template.Must(template.New("cmap").Funcs(template.FuncMap{
 		return fmt.Sprintf("<%02x>", x)
 	},
 	"SingleChunks": chunks[Single],
+	"CSRChunks":    chunks[charcode.Range],
 	"Single": func(s Single) string {
 		return fmt.Sprintf("<%x> %d", s.Code, s.Value)
 	},
@@ -618,13 +619,13 @@ end def
 /CMapName {{PN .Name}} def
 /CMapType 1 def
 /WMode {{printf "%d" .WMode}} def
-{{with .CodeSpaceRange -}}
+{{range CSRChunks .CodeSpaceRange -}}
 {{len .}} begincodespacerange
 {{range . -}}
 {{B .Low}} {{B .High}}
 {{end -}}
-{{end -}}
 endcodespacerange
+{{end -}}
 {{/* */ -}}
 
 {{range SingleChunks .CIDSingles -}}
